@@ -154,10 +154,12 @@ def insertEntry (s : State) (k : Key) (v : Val) (trigs : List Key) (d : Time) (g
     triggers := ts.foldl (fun trs t => addTrig t k trs) s.triggers
     trigCount := s.trigCount + ts.length }
 
-def store (s : State) (now : Time) (k : Key) (v : Val) (trigs : List Key) (d : Time)
+/-- `store`, parametric in what the handler of the value copy's `bad_alloc` does
+(`removesOld = false` is the code before the fix of defect D9: plain `return;`) -/
+def storeG (removesOld : Bool) (s : State) (now : Time) (k : Key) (v : Val) (trigs : List Key) (d : Time)
     (gen : Option Gen) (env : StoreEnv) : State :=
   if env.copyFails then
-    (if Gen.copyFailRemovesOld then deleteNode s k else s)
+    (if removesOld then deleteNode s k else s)
   else
     let s1 := deleteNode s k
     if refused s1 then s1
@@ -166,6 +168,11 @@ def store (s : State) (now : Time) (k : Key) (v : Val) (trigs : List Key) (d : T
       | some bumped =>
         nlClear { s1 with generation := if bumped && gen.isNone then s1.generation + 1 else s1.generation }
       | none => insertEntry (checkLimits s1 now env.lowMem) k v trigs d gen
+
+/-- `store` as the source has it now (handler shape read by the translator) -/
+def store (s : State) (now : Time) (k : Key) (v : Val) (trigs : List Key) (d : Time)
+    (gen : Option Gen) (env : StoreEnv) : State :=
+  storeG Gen.copyFailRemovesOld s now k v trigs d gen env
 
 /-- whether `store` is performed, and with which generation stamp (input of `Spec.step`) -/
 def stamp (s : State) : Op → Option Gen
